@@ -253,6 +253,8 @@ def known_slice(c, r):
         return "D31-inner-slice-reparses-plain-part"
     return None
 
+# ---- full leaf rendering through a backend (operator selection + slices + quoting); shared with C01 ----
+from props import c01 as _c01
 REQ = ["Base.Chars", "Base.Outcome", "Model.SString", "Spec.Items", "Run.C05run"]
 PROPERTY = Property(
     pid="C05", props_file="Props/C05.v",
@@ -262,6 +264,7 @@ PROPERTY = Property(
         Suite("regex", gen_regex, "run_regex", REQ, "judge_regex", regex_to_coq, mutate=mutate_str),
         Suite("quoted", gen_quoted, "run_quoted", REQ, "judge_quoted", quoted_to_coq, known=known_quoted, mutate=mutate_str),
         Suite("field", gen_field, "run_field", REQ + ["Model.FieldName"], "judge_field", field_to_coq, known=known_field),
+        Suite("leaf", _c01.gen_strop, "run_strop", _c01.REQ + ["Model.StrOp", "Spec.Items"], "judge_strop", _c01.strop_to_coq),
         Suite("slice", gen_slice, "run_slice", REQ + ["Model.Slice"], "judge_slice", slice_to_coq, known=known_slice, mutate=mutate_str),
     ],
     rule="strings over {\\ * ? \" ' : & % . ( [ a B space}: exhaustive up to length 3 (quick) / 4 (thorough), longer over a reduced alphabet, "
